@@ -12,6 +12,7 @@ open Mutiny
 def held : ZLoc → Nat → Prop
   | .ePub _ id, k => id = k
   | .dLen id, k => id = k
+  | .dLenH id, k => id = k
   | .dDrop id _, k => id = k
   | .dFreeHook id _, k => id = k
   | .dFree id _, k => id = k
@@ -448,6 +449,11 @@ theorem zinv_step (s : St) (t : Nat) (h : ZInv s) : ZInv (step s t) := by
   | dLen id =>
     simp only [hz, phaseOk] at hph
     simp only [step, hz]
+    have := zinv_rephase s t (.dLenH id) s.deqLog h (by simpa [phaseOk] using hph) (by intro x hx; simpa [hz, held] using hx)
+    exact this
+  | dLenH id =>
+    simp only [hz, phaseOk] at hph
+    simp only [step, hz]
     exact zinv_rephase s t _ _ h (by simpa [phaseOk] using hph) (by intro x hx; simpa [hz, held] using hx)
   | dDrop id v =>
     simp only [hz, phaseOk] at hph
@@ -479,7 +485,12 @@ theorem zinv_step (s : St) (t : Nat) (h : ZInv s) : ZInv (step s t) := by
   | lLen =>
     simp only [hz, phaseOk] at hph
     simp only [step, hz]
-    have := zinv_rephase s t (.done (.len (s.q.tail - s.q.head))) s.deqLog h (by simpa [phaseOk] using hph) (by intro x hx; simp [held] at hx)
+    have := zinv_rephase s t (.lLenH s.q.tail) s.deqLog h (by simpa [phaseOk] using hph) (by intro x hx; simp [held] at hx)
+    exact this
+  | lLenH tl =>
+    simp only [hz, phaseOk] at hph
+    simp only [step, hz]
+    have := zinv_rephase s t (.done (.len (U32.wsub (U32.wrap tl) (U32.wrap s.q.head)))) s.deqLog h (by simpa [phaseOk] using hph) (by intro x hx; simp [held] at hx)
     exact this
 
 theorem zinv_apply (s : St) (a : Act) (h : ZInv s) : ZInv (apply s a) := by
